@@ -13,3 +13,185 @@ pub(crate) fn vk_master_state(operate: bool) -> DpMasterState {
         last_events: Default::default(),
     }
 }
+
+// ------------------------------------------------------------------------------------------------
+// C14: DP cycle loop.  Peripheral::transmit_telegram / receive_reply are replaced by contract stubs (their own
+// contracts are the periph group); the stub logs which slot was asked, in which order.
+#[cfg(not(verif_thorough))]
+const SLOTS: usize = 2;
+#[cfg(verif_thorough)]
+const SLOTS: usize = 3;
+
+static mut VK_ASKED: [u8; 8] = [0xff; 8];
+static mut VK_NASKED: usize = 0;
+static mut VK_OK_AT: u8 = 0xff;       // slot (address) whose stub returned Ok
+static mut VK_EVENTS: u8 = 0;         // number of Err(.., Some(event)) returned
+static mut VK_RX_AT: u8 = 0xff;
+
+fn vk_stub_periph_tx<'a, 'b>(
+    this: &mut Peripheral<'a>,
+    _now: crate::time::Instant,
+    _dp: &crate::dp::DpMasterState,
+    _fdl: &crate::fdl::FdlActiveStation,
+    tx: crate::fdl::TelegramTx<'b>,
+    _hp: crate::fdl::HighPrioOnly,
+) -> Result<crate::fdl::TelegramTxResponse, (crate::fdl::TelegramTx<'b>, Option<crate::dp::PeripheralEvent>)>
+where
+    'a: 'a,
+{
+    unsafe {
+        if VK_NASKED < 8 { VK_ASKED[VK_NASKED] = this.address(); }
+        VK_NASKED += 1;
+    }
+    if kani::any() {
+        unsafe { VK_OK_AT = this.address(); }
+        Ok(crate::fdl::TelegramTxResponse::new(kani::any(), Some(this.address())))
+    } else {
+        // contract of Peripheral::transmit_telegram: the only event it raises is Offline
+        let ev = if kani::any() { unsafe { VK_EVENTS += 1; } Some(crate::dp::PeripheralEvent::Offline) } else { None };
+        Err((tx, ev))
+    }
+}
+
+fn vk_stub_periph_rx<'a>(
+    this: &mut Peripheral<'a>,
+    _now: crate::time::Instant,
+    _dp: &crate::dp::DpMasterState,
+    _fdl: &crate::fdl::FdlActiveStation,
+    _telegram: crate::fdl::Telegram,
+) -> Option<crate::dp::PeripheralEvent>
+where
+    'a: 'a,
+{
+    unsafe { VK_RX_AT = this.address(); }
+    if kani::any() { Some(crate::dp::PeripheralEvent::DataExchanged) } else { None }
+}
+
+/// DpMaster with SLOTS storage slots, symbolic occupancy; the peripheral in slot i has address i
+fn any_master<'a>(occ: [bool; SLOTS]) -> DpMaster<'a> {
+    let storage: [crate::dp::PeripheralStorage<'a>; SLOTS] = Default::default();
+    let mut m = DpMaster::new(storage);
+    let mut i = 0;
+    while i < SLOTS {
+        if occ[i] {
+            let mut p = Peripheral::default();
+            crate::dp::peripheral::__verif_kani::vk_set_address(&mut p, i as u8);
+            m.peripherals.vk_put(i, p);
+        }
+        i += 1;
+    }
+    m.state.operating_state = OperatingState::Operate;
+    m
+}
+
+/// C14.loop / C05.dp: the turn of the DP master always ends (at most SLOTS+1 loop iterations), asks occupied slots
+/// in slot order starting at the cycle index, stops at the first one that transmits, reports cycle_completed exactly
+/// when the scan passed the last occupied slot, never trips an assertion (also when several peripherals raise an event).
+#[kani::proof]
+#[kani::unwind(6)]
+#[kani::stub(Peripheral::transmit_telegram, vk_stub_periph_tx)]
+fn c14_transmit_cycle() {
+    let fdl = vk_any_fdl();
+    let occ: [bool; SLOTS] = kani::any();
+    let mut m = any_master(occ);
+    let start: u8 = kani::any();
+    kani::assume((start as usize) < SLOTS);
+    // cycle index points at an occupied slot (invariant: set by increment_cycle_state / initial 0), or the set is empty
+    kani::assume(occ[start as usize] || (start == 0));
+    m.state.cycle_state = CycleState::DataExchange(start);
+    let now = vk_any_instant();
+    m.state.last_global_control = Some(now);
+    let mut buf = [0u8; 256];
+    let r = m.transmit_telegram(now, &fdl, crate::fdl::TelegramTx::new(&mut buf), crate::fdl::HighPrioOnly::No);
+    let (asked, n, ok_at, nev) = unsafe { (VK_ASKED, VK_NASKED, VK_OK_AT, VK_EVENTS) };
+    // slots asked: strictly increasing, all occupied, all >= start, none skipped
+    let mut expect = start as usize;
+    let mut k = 0;
+    while k < n && k < 8 {
+        while expect < SLOTS && !occ[expect] { expect += 1; }
+        assert!(expect < SLOTS && asked[k] as usize == expect);
+        expect += 1;
+        k += 1;
+    }
+    let ev = m.take_last_events();
+    kani::cover!(r.is_some());
+    kani::cover!(r.is_none() && n == 2);
+    match r {
+        Some(_) => {
+            assert!(n >= 1 && ok_at == asked[n - 1]);
+            // the cycle index designates the peripheral that transmitted (first occupied slot at or after it)
+            match m.state.cycle_state {
+                CycleState::DataExchange(c) => {
+                    let mut f = c as usize;
+                    while f < SLOTS && !occ[f] { f += 1; }
+                    assert!(f == ok_at as usize);
+                }
+                _ => assert!(false),
+            }
+            assert!(!ev.cycle_completed);
+        }
+        None => {
+            assert!(ok_at == 0xff);
+            // either every remaining occupied slot declined (cycle complete), or the turn ended early after an event
+            let mut rest = false;
+            let mut j = expect;
+            while j < SLOTS { if occ[j] { rest = true; } j += 1; }
+            if !rest {
+                assert!(ev.cycle_completed);
+                assert!(m.state.cycle_state == CycleState::DataExchange(0));
+            } else {
+                assert!(!ev.cycle_completed && nev >= 1);
+            }
+        }
+    }
+    // event accounting: at most one event can be reported per callback, and none is lost
+    assert!(nev <= 1 || r.is_none());
+    if nev == 0 { assert!(ev.peripheral.is_none()); } else { assert!(matches!(ev.peripheral, Some((_, crate::dp::PeripheralEvent::Offline)))); }
+    assert!(nev <= 1);
+    assert!(m.take_last_events() == DpEvents::default());
+}
+
+/// C04.route / C14: a reply is handed to the peripheral whose request is outstanding (cycle index), then the cycle advances
+#[kani::proof]
+#[kani::unwind(6)]
+#[kani::stub(Peripheral::receive_reply, vk_stub_periph_rx)]
+fn c14_receive_reply_route() {
+    let fdl = vk_any_fdl();
+    let occ: [bool; SLOTS] = kani::any();
+    let mut m = any_master(occ);
+    let idx: u8 = kani::any();
+    kani::assume((idx as usize) < SLOTS && occ[idx as usize]);
+    m.state.cycle_state = CycleState::DataExchange(idx);
+    let pdu = [0u8; 0];
+    let t = crate::fdl::Telegram::ShortConfirmation(crate::fdl::ShortConfirmation);
+    let _ = &pdu;
+    m.receive_reply(vk_any_instant(), &fdl, idx, t);
+    assert!(unsafe { VK_RX_AT } == idx);
+    let mut next = None;
+    let mut j = idx as usize + 1;
+    while j < SLOTS { if occ[j] && next.is_none() { next = Some(j as u8); } j += 1; }
+    let ev = m.take_last_events();
+    match next {
+        Some(nx) => { assert!(m.state.cycle_state == CycleState::DataExchange(nx) && !ev.cycle_completed); }
+        None => { assert!(m.state.cycle_state == CycleState::CycleCompleted && ev.cycle_completed); }
+    }
+    if let Some((h, _)) = ev.peripheral { assert!(h.address() == idx); }
+}
+
+/// C14: after CycleCompleted the next call reports nothing, resets to slot 0 and sends nothing
+#[kani::proof]
+#[kani::unwind(6)]
+#[kani::stub(Peripheral::transmit_telegram, vk_stub_periph_tx)]
+fn c14_transmit_after_completed() {
+    let fdl = vk_any_fdl();
+    let occ: [bool; SLOTS] = kani::any();
+    let mut m = any_master(occ);
+    m.state.cycle_state = CycleState::CycleCompleted;
+    let now = vk_any_instant();
+    m.state.last_global_control = Some(now);
+    let mut buf = [0u8; 256];
+    let r = m.transmit_telegram(now, &fdl, crate::fdl::TelegramTx::new(&mut buf), crate::fdl::HighPrioOnly::No);
+    assert!(r.is_none() && unsafe { VK_NASKED } == 0);
+    assert!(m.state.cycle_state == CycleState::DataExchange(0));
+    assert!(m.take_last_events() == DpEvents::default());
+}
